@@ -22,14 +22,15 @@ Proof. intros xs ys H L. induction H; simpl; auto. rewrite (H L), IHForall2. ref
 Section ChainR.
   Variables (is_sep : token -> bool) (sep : token) (p : parser ast) (tk : ast -> list token).
   Variable good : list token -> Prop.
+  Variable R : ast -> ast -> Prop.
   Hypothesis Hsep : is_sep sep = true.
   Hypothesis good_sep : forall r, good (sep :: r).
 
   Lemma tail_okR : forall xs n rest,
     good rest -> match rest with t :: _ => is_sep t = false | [] => True end ->
     (length xs <= n)%nat ->
-    Forall (fun x => forall r, good r -> exists y, p (tk x ++ r) = Ok (y, r) /\ sem_eq x y) xs ->
-    exists ys, tail_loop is_sep p n (flat sep tk xs ++ rest) = Ok (ys, rest) /\ Forall2 sem_eq xs ys.
+    Forall (fun x => forall r, good r -> exists y, p (tk x ++ r) = Ok (y, r) /\ R x y) xs ->
+    exists ys, tail_loop is_sep p n (flat sep tk xs ++ rest) = Ok (ys, rest) /\ Forall2 R xs ys.
   Proof.
     induction xs as [|x xs IH]; intros n rest Hg Hr Hn HF.
     - exists []. split; [|constructor]. simpl. destruct rest as [|t rest']; [destruct n; reflexivity|].
@@ -46,10 +47,10 @@ Section ChainR.
   Lemma chain_okR : forall mk x xs n rest,
     good rest -> match rest with t :: _ => is_sep t = false | [] => True end ->
     (length xs <= n)%nat ->
-    Forall (fun x => forall r, good r -> exists y, p (tk x ++ r) = Ok (y, r) /\ sem_eq x y) (x :: xs) ->
+    Forall (fun x => forall r, good r -> exists y, p (tk x ++ r) = Ok (y, r) /\ R x y) (x :: xs) ->
     exists y ys, chain mk is_sep p n (join_toks sep (map tk (x :: xs)) ++ rest)
                  = Ok (match ys with [] => y | _ => mk (y :: ys) end, rest)
-                 /\ sem_eq x y /\ Forall2 sem_eq xs ys.
+                 /\ R x y /\ Forall2 R xs ys.
   Proof.
     intros mk x xs n rest Hg Hr Hn HF. inversion HF as [|? ? Hx HF']; subst.
     rewrite join_toks_flat. rewrite <- app_assoc. unfold chain.
@@ -92,7 +93,7 @@ Proof.
     { apply Forall_forall. intros y Hy r _. rewrite Forall_forall in H. apply H; auto.
       - rewrite forallb_forall in W0. auto.
       - pose proof (sum_size_in _ _ Hy). lia. }
-    destruct (chain_okR is_and TAnd (parse_op f) (toks_of false) (fun _ => True) eq_refl (fun _ => I) SAnd x xs' f (TRParen :: rest) I eq_refl
+    destruct (chain_okR is_and TAnd (parse_op f) (toks_of false) (fun _ => True) sem_eq eq_refl (fun _ => I) SAnd x xs' f (TRParen :: rest) I eq_refl
                 ltac:(pose proof (sum_size_len (x :: xs')); simpl in *; lia) HF) as [y [ys [E [Ry Rys]]]].
     assert (NE : xs' <> []) by (destruct xs'; [discriminate|discriminate]).
     destruct ys as [|y2 ys']; [inversion Rys; subst; congruence|].
@@ -108,7 +109,7 @@ Proof.
     { apply Forall_forall. intros y Hy r Hr. rewrite Forall_forall in H.
       destruct (H y Hy ltac:(rewrite forallb_forall in W0; auto) f r ltac:(pose proof (sum_size_in _ _ Hy); lia)) as [y' [E R]].
       exists y'. split; auto. apply and_single; auto. }
-    destruct (chain_okR is_or TOr (parse_and_with (parse_op f) f) (toks_of false) no_and_hd eq_refl (fun _ => I) SOr x xs' f (TRParen :: rest) I eq_refl
+    destruct (chain_okR is_or TOr (parse_and_with (parse_op f) f) (toks_of false) no_and_hd sem_eq eq_refl (fun _ => I) SOr x xs' f (TRParen :: rest) I eq_refl
                 ltac:(pose proof (sum_size_len (x :: xs')); simpl in *; lia) HF) as [y [ys [E [Ry Rys]]]].
     assert (NE : xs' <> []) by (destruct xs'; [discriminate|discriminate]).
     destruct ys as [|y2 ys']; [inversion Rys; subst; congruence|].
